@@ -4,6 +4,36 @@ _SUFFIX = (' Decides the structural necessary condition(s) named, on every path 
            'current source; does not decide the run-time behaviour itself.')
 
 CLAIMED = {
+    'C14': {
+        'text': 'R14.1 the category->path table of set_notebook_diff_targets equals, per category, the set of starred paths at which '
+                'the nbformat 4.5 schema declares that field (key filters only on leaves); R14.2 flags are wired to same-named '
+                'parameters; R14.3 every sub-differ call on the notebook path forwards path and config, or (decided with the '
+                'schema alternatives valid in that branch) no ignorable path lies below it and no wrong-path lookup can hit one; '
+                'R14.4 installation semantics arm by arm.' + _SUFFIX,
+        'note': 'Trusted: installed nbformat schema as the enumeration of where categories occur. Emptiness of the diff for '
+                'notebooks differing only in ignored parts is implied only through these wiring conditions.',
+        'technique': 'static analysis: table-vs-schema set comparison + argument-forwarding check along the differ call graph',
+    },
+    'C16': {
+        'text': 'R16.1 every ANSI source (colorama constants, pygments terminal formatter, git --color* flags) is selected by '
+                'use_color: table-row membership, index expression, guard dominance, and constant-folding of the git command on '
+                'the use_color=False path; R16.2 op/container/renderer dispatches total (evaluator); R16.3 all writes of the '
+                'diff printer under `if di`; R16.4 temp dirs removed in finally, tools launched only behind which() of the same '
+                'executable.' + _SUFFIX,
+        'note': '"Never fails" over all notebooks is not decided beyond dispatch totality; regex post-processing of tool output '
+                'and the assert on git output are unarmed observations.',
+        'technique': 'static analysis: guard dominance over ANSI sources + constant folding + dispatch exhaustiveness',
+    },
+    'C19': {
+        'text': 'R19.1 sections parsed from docs/source/config.rst vs C3-linearised MRO of every entry-point class; R19.2 per '
+                '(entry point, option) the carrying sections appear in documented specificity order; R19.3 layering shape of '
+                'build_config/_load_config_files/recursive_update; R19.4 config only as argparse defaults before parsing; R19.5 '
+                'for each console script the program name every reachable ConfigBackedParser sees is a key of the entry-point '
+                'table, and every key is some parser\'s program name.' + _SUFFIX,
+        'note': 'Three genuine defects recorded as known findings (Global section unused; `nbdime <cmd>` ignores configuration; '
+                'server section unreachable). traitlets/argparse semantics trusted.',
+        'technique': 'static analysis: documentation-vs-class-hierarchy comparison (C3 MRO) + call-graph reachability of parser constructions',
+    },
     'C07': {
         'text': 'R07.1 conflict flag of the inline-source decision is def-use derived from the text-merge status in an accepted '
                 'non-zero form and source is replaced by exactly the rendered text; R07.2 every renderer return that contains '
